@@ -658,7 +658,11 @@ func (cc *checkCtx) replayObligation(f *failure) *ReplayResult {
 	testFile := filepath.Join(dir, fmt.Sprintf("gvc_replay_%d_test.go", len(rr.TestSource)))
 	os.WriteFile(testFile, src.Bytes(), 0o644)
 	pkgDir := filepath.Join(cc.repo, strings.TrimPrefix(strings.TrimPrefix(pkg.Path(), modulePath), "/"))
-	ov := map[string]any{"Replace": map[string]string{filepath.Join(pkgDir, "zz_gvc_replay_test.go"): testFile}}
+	repl := map[string]string{filepath.Join(pkgDir, "zz_gvc_replay_test.go"): testFile}
+	for k, v := range cc.goOverlay {
+		repl[k] = v
+	}
+	ov := map[string]any{"Replace": repl}
 	ovFile := filepath.Join(dir, "overlay.json")
 	os.WriteFile(ovFile, mustJSON(ov), 0o644)
 	cmd := exec.Command("go", "test", "-overlay", ovFile, "-vet=off", "-count=1", "-timeout", "60s", "-run", "^TestGvcReplay$", "-v", ".")
